@@ -80,7 +80,9 @@ def bundle_specs():
         'seq': strat.uints(2 ** 32), 'lifetime': st.one_of(st.sampled_from([1, 1000, 3600000]), strat.uints()),
         'wait_ms': st.sampled_from([0, 0, 1, 999, 1000, 60000]),
         'payload': strat.payload_bytes(300).map(bytes.hex),
-        'mtu': st.sampled_from([None, None, 100000]),
+        # 'frag': a route MTU below the bundle size (C11 is quantified over all transmit routes): the bundle leaves as
+        # fragments, each of which still shows the received primary block fields
+        'mtu': st.sampled_from([None, None, 100000, 'frag', 'frag']),
         'src': strat.eids(allow_none=False), 'dest': st.sampled_from([['dtn', '//far/away'], ['ipn', 5, 6]]),
         'rpt': strat.eids(),
     })
@@ -111,7 +113,6 @@ def execute(case):
 
 def forward_one(node, case, out):
     from vlib import ref9171 as r, simloop
-    node.config.tx_route_table[0].mtu = case.get('mtu')
     n_before = len(node.sent())
     ago = case.get('created_ago')
     ctime = 0 if ago is None else max(1, NOW_DTN - int(ago))
@@ -124,6 +125,12 @@ def forward_one(node, case, out):
               'blocks': blocks}
     wire_in = r.encode(bundle)
     din = r.decode(wire_in)
+    mtu = case.get('mtu')
+    if mtu == 'frag':
+        plen = len(case['payload']) // 2
+        # room for the blocks that forwarding adds and for about half of the payload
+        mtu = len(wire_in) + 40 - plen // 2 if plen >= 64 and not int(case['flags']) & r.FLAG_NO_FRAGMENT else None
+    node.config.tx_route_table[0].mtu = mtu
     err = node.receive(wire_in, run=False)
     if err is not None:
         out.fail('receive-raises:%s' % type(err).__name__, 'receiving a well-formed bundle raised: %s' % err)
@@ -149,6 +156,37 @@ def forward_one(node, case, out):
     out.nontrivial = out.nontrivial or had_hop or had_prev
     out.label('hop' if had_hop else 'no-hop', 'prev' if had_prev else 'no-prev',
               'time-zero' if ctime == 0 else 'time-set', 'ext:%d' % len(case['ext']))
+    if len(fwd) > 1 and all(d['primary']['frag'] is not None for _w, d in fwd):
+        # forwarded as fragments: every one shows the received primary block fields, the payload ranges tile the payload
+        out.label('forwarded-as-fragments')
+        pos = 0
+        joined = b''
+        for data, dec in sorted(fwd, key=lambda x: x[1]['primary']['frag'][0]):
+            diffs = [k for k in ('version', 'crc_type', 'dest', 'src', 'rpt', 'ts', 'lifetime')
+                     if dec['primary'].get(k) != din['primary'].get(k)]
+            if dec['primary']['flags'] != din['primary']['flags'] | r.FLAG_FRAGMENT:
+                diffs.append('flags')
+            if diffs:
+                out.fail('primary-changed:%s' % ','.join(diffs), 'primary block of a fragment differs from the received bundle: %s'
+                         % '; '.join('%s %r -> %r' % (k, din['primary'].get(k), dec['primary'].get(k)) for k in diffs))
+            if not r.all_crc_ok(dec):
+                out.fail('crc-invalid', 'a forwarded fragment has an invalid CRC')
+            chunk = bytes.fromhex(r.payload_block(dec)['data'])
+            if dec['primary']['frag'][0] != pos or dec['primary']['frag'][1] != len(case['payload']) // 2:
+                out.fail('payload-changed', 'fragment ranges do not tile the payload (offset %d after %d octets, total %d of %d)'
+                         % (dec['primary']['frag'][0], pos, dec['primary']['frag'][1], len(case['payload']) // 2))
+            pos += len(chunk)
+            joined += chunk
+        if joined.hex() != case['payload']:
+            out.fail('payload-changed', 'payload differs after forwarding in fragments')
+        # the blocks of the first fragment are judged like those of a whole forwarded bundle; later fragments carry what
+        # C05 says they carry
+        first = min(fwd, key=lambda x: x[1]['primary']['frag'][0])
+        fwd = [first]
+        case = dict(case, payload=r.payload_block(first[1])['data'])
+        fragmented = True
+    else:
+        fragmented = False
     if len(fwd) != 1:
         out.fail('forward-count', 'expected exactly one forwarded bundle, the CL got %d (of %d bundles)' % (len(fwd), len(sent)))
         return out
@@ -156,7 +194,7 @@ def forward_one(node, case, out):
     # primary block octet-identical
     pin = wire_in[din['primary']['span'][0]:din['primary']['span'][1]]
     pout = data[dec['primary']['span'][0]:dec['primary']['span'][1]]
-    if pin != pout:
+    if pin != pout and not fragmented:
         diffs = [k for k in ('version', 'flags', 'crc_type', 'dest', 'src', 'rpt', 'ts', 'lifetime', 'frag')
                  if dec['primary'].get(k) != din['primary'].get(k)]
         out.fail('primary-changed:%s' % ','.join(diffs or ['encoding']),
